@@ -132,7 +132,7 @@ CLAIMED["C08"] = (
     "DESIGN.md sections 2, 15 and 25, C08",
 )
 CLAIMED["C10"] = (
-    "abstract interpretation of conj / dagger / the norm contraction / two-tensor network norms over shaped tokens; sibling agreement (cross-check) of "
+    "abstract interpretation of conj / dagger / the norm contraction / two- and three-tensor network norms over shaped tokens; sibling agreement (cross-check) of "
     "FermionicArray.conj and .dagger by def-use extraction on helper-inlined bodies",
     "Bounded (R10.2-R10.4), for ~130 (quick) / ~1500 (thorough) fermionic token arrays with even and odd parity, labels and pending "
     "signs: conj twice and dagger twice return the original; dagger(phase_dual=p) equals conj(phase_dual=p) followed by the fermionic "
@@ -142,10 +142,13 @@ CLAIMED["C10"] = (
     "abelian dagger is conj then the full transpose; H = dagger(), T = transpose() (R10.0, the textual version, adds confidence only). "
     "R10.2-R10.4 also run on arrays carrying three (odd) / two (even) labels. R10.5: for 120 (quick) two-tensor networks <psi|psi> along six routes (contracted array conjugated, tensor by tensor with the "
     "bra-like dangling legs sign-flipped, site by site, ket first, both operand orders) is the same signed sum of products and every "
-    "|a b|^2 enters with +1. Confidence only (R10.1, findings become notes): conj and dagger agree on new charge, conjugated labels, odd-global-sign condition, the leg set of the "
+    "|a b|^2 enters with +1. R10.7: for 312 (quick) three-tensor chains A(i,j) B(j*,k) C(k*,l) with every assignment of even / odd charges "
+    "and three label orders, <psi|psi> along six routes (whole array conjugated in both operand orders, tensor by tensor with both groupings, zipped up site "
+    "by site from the left bra-first and from the right ket-first) is the same signed sum and every |a b c|^2 enters with +1 - contracted chains carry the "
+    "several-label arrays naturally. Confidence only (R10.1, findings become notes): conj and dagger agree on new charge, conjugated labels, odd-global-sign condition, the leg set of the "
     "dual-leg option, and exactly one kind of reversal. Found and fixed the complementary leg set of dagger(phase_dual=True). " + BOUNDED,
-    "Networks of three tensors conjugated tensor by tensor are not enumerated (C04 R04.7 covers three-tensor route independence without "
-    "conjugation); numbers are not computed. Note: "
+    "Networks with loops conjugated tensor by tensor are not enumerated (C04 R04.7 / R04.9 cover route independence of triangles and rings "
+    "without conjugation); numbers are not computed. Note: "
     "the library's docstring also promises the norm for all-bra arrays; odd all-bra arrays give minus the norm, which the property "
     "does not cover and the check does not demand.",
     "DESIGN.md sections 2, 16 and 22, C10",
@@ -214,7 +217,7 @@ CLAIMED["C19"] = (
 CLAIMED["C04"] = (
     "exhaustive abstract evaluation of the label comparison over order types and of the label merge on small label lists; path rule "
     "(exchange => sign) on the phased sort; "
-    "must-pass-through rule for resolve_combined_oddpos; abstract interpretation of two- and three-tensor networks along different routes "
+    "must-pass-through rule for resolve_combined_oddpos; abstract interpretation of two-, three- and four-tensor networks along different routes "
     "(signed monomials)",
     "Complete over its finite domain: FermionicOperator.__lt__/__eq__ are a strict total order for every totally ordered label type (all "
     "13 order types of three labels x 8 direction assignments); labels are used only through comparisons. R04.8 (evaluation): "
@@ -227,8 +230,10 @@ CLAIMED["C04"] = (
     "three-tensor networks over Z2 and U1, + Z2Z2, U1U1 thorough; every assignment of even / odd charges; distinct labels; pending "
     "signs): result blocks reduced to signed monomials of input blocks agree - with total charge, indices and remaining labels - "
     "between tensordot(a,b) and the transposed tensordot(b,a), between listings of the contracted pairs, with operands transposed "
-    "beforehand, and between (A.B).C and A.(B.C) for chains and triangles (scalar results included). " + BOUNDED,
-    "Networks of four tensors and 'several indices at once vs one after another' are not enumerated; values are not computed.",
+    "beforehand, and between (A.B).C and A.(B.C) for chains and triangles (scalar results included). R04.9: ~500 four-tensor rings "
+    "A(i,j) B(j*,k) C(k*,l) D(l*,i*) (every assignment of even / odd charges, four label orders; half of all 24 thorough) give the same scalar "
+    "along ((A.B).C).D, (A.B).(C.D), A.((B.C).D) and (D.A).(B.C). " + BOUNDED,
+    "Networks of five or more tensors and 'several indices at once vs one after another via trace' are not enumerated; values are not computed.",
     "DESIGN.md sections 2 and 16, C04",
 )
 CLAIMED["C18"] = (
